@@ -837,11 +837,21 @@ Definition d7_views : list slice :=
 Lemma first_diff_refl : forall a i, first_diff i a a = None.
 Proof. induction a as [|x a IH]; intros i; cbn [first_diff]; auto. rewrite byte_eqb_refl. apply IH. Qed.
 
-Lemma d7_views_ok : Forall (view_ok [d7_arena]) d7_views.
+(* decidable form of view_ok, for concrete instances *)
+Definition view_okb (h : heap) (v : slice) : bool :=
+  Nat.ltb (sl_blk v) (length h) && Nat.leb (sl_len v) (sl_cap v) &&
+  Nat.leb (sl_off v + sl_cap v) (length (hblock h (sl_blk v))) && Nat.eqb (sl_len v) 512.
+
+Lemma views_okb_ok h views : forallb (view_okb h) views = true -> Forall (view_ok h) views.
 Proof.
-  repeat constructor; cbn [sl_blk sl_off sl_len sl_cap length];
-    try (apply Nat.leb_le; vm_compute; reflexivity).
+  intros H. apply Forall_forall. intros v Hv. rewrite forallb_forall in H. specialize (H v Hv).
+  unfold view_okb in H. rewrite !andb_true_iff in H. destruct H as [[[A B] C] D].
+  apply Nat.ltb_lt in A. apply Nat.leb_le in B, C. apply Nat.eqb_eq in D.
+  repeat split; assumption.
 Qed.
+
+Lemma d7_views_ok : Forall (view_ok [d7_arena]) d7_views.
+Proof. apply views_okb_ok. vm_compute. reflexivity. Qed.
 
 (* the views denote exactly the shares of the blob *)
 Lemma d7_views_denote : map (mread_bytes [d7_arena]) d7_views = d7_shares.
@@ -891,6 +901,9 @@ Qed.
    is a hypothesis on the steps ([disciplined]), not built into their type. *)
 Section Interleave.
   Context {L : Type}.
+  (* an invariant of the thread-local state that the steps maintain (e.g. "the
+     accumulation buffers held in local variables are private") *)
+  Context (Inv : L -> Prop).
 
   Definition tstep : Type := mstate * L -> mstate * L.
   Record tconf : Type := mk_tconf { tc_priv : heap; tc_log : list access; tc_loc : L }.
@@ -921,9 +934,11 @@ Section Interleave.
     fold_left (fun s f => exec_step n0 (fst s) f (snd s)) steps (h0, c).
 
   (* the discipline: a step leaves the first n0 blocks alone and logs every write
-     against a block it owns (id >= n0) *)
+     against a block it owns (id >= n0) - whenever the local invariant holds,
+     which it re-establishes *)
   Definition disciplined (n0 : nat) (f : tstep) : Prop :=
-    forall st l, n0 <= length (st_heap st) -> ext n0 st (fst (f (st, l))).
+    forall st l, n0 <= length (st_heap st) -> Inv l ->
+      ext n0 st (fst (f (st, l))) /\ Inv (snd (f (st, l))).
 
   (* global identity of the block an access of thread t touches *)
   Inductive gblock := GShared (b : nat) | GPrivate (t b : nat).
@@ -944,23 +959,29 @@ Section Interleave.
     - inversion G. contradiction.
   Qed.
 
+  Definition thread_ok (n0 : nat) (th : list tstep * tconf) : Prop :=
+    Forall (disciplined n0) (fst th) /\ Forall (wfresh n0) (tc_log (snd th)) /\ Inv (tc_loc (snd th)).
+
   Lemma exec_step_disciplined h0 f c :
-    disciplined (length h0) f -> Forall (wfresh (length h0)) (tc_log c) ->
+    disciplined (length h0) f -> Forall (wfresh (length h0)) (tc_log c) -> Inv (tc_loc c) ->
     fst (exec_step (length h0) h0 f c) = h0 /\
-    Forall (wfresh (length h0)) (tc_log (snd (exec_step (length h0) h0 f c))).
+    Forall (wfresh (length h0)) (tc_log (snd (exec_step (length h0) h0 f c))) /\
+    Inv (tc_loc (snd (exec_step (length h0) h0 f c))).
   Proof.
-    intros D W. unfold exec_step. cbn [fst snd tc_log].
+    intros D W I0. unfold exec_step. cbn [fst snd tc_log tc_loc].
     specialize (D (mk_st (h0 ++ tc_priv c) (tc_log c)) (tc_loc c)).
     cbn [st_heap st_log] in D. rewrite app_length in D.
-    destruct (D ltac:(lia)) as (E & _ & K). cbn [st_heap st_log] in E, K. split.
+    destruct (D ltac:(lia) I0) as ((E & _ & K) & I1). cbn [st_heap st_log] in E, K. split; [|split].
     - rewrite E. rewrite firstn_app_le by lia. apply firstn_all.
     - apply K. assumption.
+    - assumption.
   Qed.
 
   (* relation between a thread as given and the same thread at some point of a run *)
   Definition thread_rel (h0 : heap) (th0 th : list tstep * tconf) : Prop :=
     Forall (disciplined (length h0)) (fst th0) /\
     Forall (wfresh (length h0)) (tc_log (snd th)) /\
+    Inv (tc_loc (snd th)) /\
     exists done, fst th0 = done ++ fst th /\ run_alone (length h0) h0 done (snd th0) = (h0, snd th).
 
   Lemma Forall2_len {A B} (R : A -> B -> Prop) l l' : Forall2 R l l' -> length l = length l'.
@@ -998,14 +1019,14 @@ Section Interleave.
   Proof.
     intros F. unfold sched_step. cbn [fst snd].
     destruct (nth_error ths i) as [[[|f rest] c]|] eqn:N; cbn [fst snd]; auto.
-    destruct (Forall2_nth_error _ _ _ _ _ F N) as ([steps0 c0] & N0 & (D & W & done & SPLIT & RA)).
+    destruct (Forall2_nth_error _ _ _ _ _ F N) as ([steps0 c0] & N0 & (D & W & I0 & done & SPLIT & RA)).
     cbn [fst snd] in *.
     assert (Df : disciplined (length h0) f).
     { rewrite Forall_forall in D. apply D. rewrite SPLIT. apply in_or_app. right. left. reflexivity. }
-    destruct (exec_step_disciplined h0 f c Df W) as [SH WL].
+    destruct (exec_step_disciplined h0 f c Df W I0) as (SH & WL & I1).
     split; [assumption|].
     eapply Forall2_upd_nth; [exact F|exact N0|].
-    split; [exact D|]. split; [exact WL|]. cbn [fst snd].
+    split; [exact D|]. split; [exact WL|]. split; [exact I1|]. cbn [fst snd].
     exists (done ++ [f]). split.
     - rewrite SPLIT, <- app_assoc. reflexivity.
     - rewrite run_alone_snoc, RA. cbn [fst snd].
@@ -1025,13 +1046,10 @@ Section Interleave.
       apply IH. assumption.
   Qed.
 
-  Lemma thread_rel_init h0 ths :
-    Forall (fun th => Forall (disciplined (length h0)) (fst th) /\
-                      Forall (wfresh (length h0)) (tc_log (snd th))) ths ->
-    Forall2 (thread_rel h0) ths ths.
+  Lemma thread_rel_init h0 ths : Forall (thread_ok (length h0)) ths -> Forall2 (thread_rel h0) ths ths.
   Proof.
-    induction 1 as [|th ths [D W] _ IH]; constructor; auto.
-    split; [exact D|]. split; [exact W|]. exists []. split; [reflexivity|].
+    induction 1 as [|th ths (D & W & I0) _ IH]; constructor; auto.
+    split; [exact D|]. split; [exact W|]. split; [exact I0|]. exists []. split; [reflexivity|].
     destruct th as [steps c]. reflexivity.
   Qed.
 
@@ -1040,8 +1058,7 @@ Section Interleave.
      result - locals, private blocks, log - is its solo result); and no two
      accesses of different threads conflict. *)
   Theorem read_only_interleave : forall (h0 : heap) (ths : list (list tstep * tconf)) (sched : list nat),
-    Forall (fun th => Forall (disciplined (length h0)) (fst th) /\
-                      Forall (wfresh (length h0)) (tc_log (snd th))) ths ->
+    Forall (thread_ok (length h0)) ths ->
     let final := run_sched (length h0) sched (h0, ths) in
     fst final = h0 /\
     length (snd final) = length ths /\
@@ -1057,7 +1074,7 @@ Section Interleave.
     fold final in SH, F. split; [exact SH|]. split; [|split].
     - symmetry. eapply Forall2_len. exact F.
     - intros i rest c N.
-      destruct (Forall2_nth_error _ _ _ _ _ F N) as ([steps c0] & N0 & (_ & _ & done & SPLIT & RA)).
+      destruct (Forall2_nth_error _ _ _ _ _ F N) as ([steps c0] & N0 & (_ & _ & _ & done & SPLIT & RA)).
       exists steps, c0, done. cbn [fst snd] in *. auto.
     - intros i j ri ci rj cj a b Ni Nj Ia Ib.
       destruct (Forall2_nth_error _ _ _ _ _ F Ni) as (_ & _ & (_ & Wi & _)).
@@ -1068,8 +1085,7 @@ Section Interleave.
 
   (* complete schedules: a thread that has no step left has its solo result *)
   Corollary read_only_interleave_complete : forall h0 ths sched i steps c0 c,
-    Forall (fun th => Forall (disciplined (length h0)) (fst th) /\
-                      Forall (wfresh (length h0)) (tc_log (snd th))) ths ->
+    Forall (thread_ok (length h0)) ths ->
     nth_error ths i = Some (steps, c0) ->
     nth_error (snd (run_sched (length h0) sched (h0, ths))) i = Some ([], c) ->
     run_alone (length h0) h0 steps c0 = (h0, c).
@@ -1079,4 +1095,211 @@ Section Interleave.
     destruct (R i [] c N) as (steps' & c0' & done & N0' & SPLIT & RA).
     rewrite N0 in N0'. inversion N0'; subst. rewrite app_nil_r. exact RA.
   Qed.
+
+  (* running alone = running the steps one after the other on ONE heap: the
+     splitting into shared and private blocks is invisible to a disciplined thread *)
+  Definition fold_steps (steps : list tstep) (s : mstate * L) : mstate * L :=
+    fold_left (fun s f => f s) steps s.
+
+  Lemma run_alone_direct h0 : forall steps priv log l,
+    Forall (disciplined (length h0)) steps -> Inv l ->
+    run_alone (length h0) h0 steps (mk_tconf priv log l) =
+    (h0, let r := fold_steps steps (mk_st (h0 ++ priv) log, l) in
+         mk_tconf (skipn (length h0) (st_heap (fst r))) (st_log (fst r)) (snd r)).
+  Proof.
+    induction steps as [|f steps IH]; intros priv log l D I0.
+    - cbn. rewrite skipn_app, skipn_all, Nat.sub_diag, skipn_O. reflexivity.
+    - inversion D as [|f' steps' Df D']; subst.
+      unfold run_alone, fold_steps. cbn [fold_left fst snd].
+      unfold exec_step at 2. cbn [tc_priv tc_log tc_loc].
+      specialize (Df (mk_st (h0 ++ priv) log) l). cbn [st_heap] in Df. rewrite app_length in Df.
+      destruct (Df ltac:(lia) I0) as ((E & _ & _) & I1). cbn [st_heap] in E.
+      destruct (f (mk_st (h0 ++ priv) log, l)) as [[heap1 log1] l1]. cbn [fst snd st_heap st_log] in *.
+      assert (E1 : firstn (length h0) heap1 = h0).
+      { rewrite E, firstn_app_le by lia. apply firstn_all. }
+      rewrite E1.
+      assert (E2 : h0 ++ skipn (length h0) heap1 = heap1).
+      { rewrite <- E1 at 1. apply firstn_skipn. }
+      etransitivity; [exact (IH (skipn (length h0) heap1) log1 l1 D' I1)|].
+      rewrite E2. reflexivity.
+  Qed.
 End Interleave.
+
+(* ---- ParseBlobs as a thread: one atomic step per share, then the finishing loop ---- *)
+
+Inductive pb_local :=
+| PBLoop (o : outcome (list mseq))   (* inside the loop over the shares: `sequences` *)
+| PBDone (o : outcome (list blob)).  (* returned *)
+
+Definition pb_inv (n0 : nat) (l : pb_local) : Prop :=
+  match l with PBLoop (Ok seqs) => seqs_safe n0 seqs | _ => True end.
+
+Definition pb_loop_step (g : nat -> nat -> nat) (v : slice) : @tstep pb_local := fun s =>
+  match snd s with
+  | PBLoop (Ok seqs) =>
+    let r := parse_sparse_step g true v seqs (fst s) in (fst r, PBLoop (snd r))
+  | _ => s
+  end.
+
+Definition pb_finish_step : @tstep pb_local := fun s =>
+  match snd s with
+  | PBLoop (Ok seqs) => let r := mmap finish_mseq (rev seqs) (fst s) in (fst r, PBDone (snd r))
+  | PBLoop Err => (fst s, PBDone Err)
+  | PBLoop Fault => (fst s, PBDone Fault)
+  | PBDone _ => s
+  end.
+
+Definition pb_thread (g : nat -> nat -> nat) (views : list slice) : list (@tstep pb_local) :=
+  map (pb_loop_step g) views ++ [pb_finish_step].
+
+Definition pb_start : @tconf pb_local := mk_tconf [] [] (PBLoop (Ok [])).
+
+Lemma pb_loop_step_disciplined n0 g v : disciplined (pb_inv n0) n0 (pb_loop_step g v).
+Proof.
+  intros st l LN I0. unfold pb_loop_step. cbn [fst snd].
+  destruct l as [[seqs| |]|o]; try (split; [apply ext_refl|exact I0]).
+  destruct (ro_parse_sparse_step n0 g v seqs I0 st LN) as [E P]. cbn [fst snd]. split; [exact E|].
+  destruct (snd (parse_sparse_step g true v seqs st)) as [seqs'| |]; cbn [pb_inv]; auto.
+Qed.
+
+Lemma pb_finish_step_disciplined n0 : disciplined (pb_inv n0) n0 pb_finish_step.
+Proof.
+  intros st l LN I0. unfold pb_finish_step. cbn [fst snd].
+  destruct l as [[seqs| |]|o]; try (split; [apply ext_refl|exact I]).
+  assert (R : ro n0 (Forall (fun _ : blob => True)) (mmap finish_mseq (rev seqs))).
+  { apply ro_mmap. intros q. apply ro_finish_mseq. }
+  destruct (R st LN) as [E _]. split; [exact E|exact I].
+Qed.
+
+Lemma pb_thread_disciplined n0 g views : Forall (disciplined (pb_inv n0) n0) (pb_thread g views).
+Proof.
+  unfold pb_thread. apply Forall_app. split.
+  - apply Forall_forall. intros f Hf. apply in_map_iff in Hf. destruct Hf as (v & <- & _).
+    apply pb_loop_step_disciplined.
+  - constructor; [apply pb_finish_step_disciplined|constructor].
+Qed.
+
+Lemma pb_thread_ok n0 g views : thread_ok (pb_inv n0) n0 (pb_thread g views, pb_start).
+Proof.
+  split; [apply pb_thread_disciplined|]. split; constructor.
+Qed.
+
+Lemma fold_loop_steps_stuck g : forall views st l,
+  (forall seqs, l <> PBLoop (Ok seqs)) ->
+  fold_steps (map (pb_loop_step g) views) (st, l) = (st, l).
+Proof.
+  induction views as [|v tl IH]; intros st l H; [reflexivity|].
+  unfold fold_steps in *. cbn [map fold_left]. unfold pb_loop_step at 2. cbn [fst snd].
+  destruct l as [[seqs| |]|o]; try (apply IH; assumption). exfalso. apply (H seqs). reflexivity.
+Qed.
+
+Lemma fold_loop_steps g : forall views st seqs,
+  fold_steps (map (pb_loop_step g) views) (st, PBLoop (Ok seqs)) =
+  (fst (parse_sparse_loop_mem g true views seqs st), PBLoop (snd (parse_sparse_loop_mem g true views seqs st))).
+Proof.
+  induction views as [|v tl IH]; intros st seqs; [reflexivity|].
+  unfold fold_steps in *. cbn [map fold_left parse_sparse_loop_mem]. unfold pb_loop_step at 2. cbn [fst snd].
+  unfold mbind. destruct (parse_sparse_step g true v seqs st) as [st1 [seqs'| |]]; cbn [fst snd].
+  - apply IH.
+  - apply (fold_loop_steps_stuck g tl st1 (PBLoop Err)). intros s K; discriminate K.
+  - apply (fold_loop_steps_stuck g tl st1 (PBLoop Fault)). intros s K; discriminate K.
+Qed.
+
+(* the thread computes exactly parse_blobs_mem *)
+Lemma fold_pb_thread g views st :
+  fold_steps (pb_thread g views) (st, PBLoop (Ok [])) =
+  (fst (parse_blobs_mem g views st), PBDone (snd (parse_blobs_mem g views st))).
+Proof.
+  unfold pb_thread, fold_steps. rewrite fold_left_app. cbn [fold_left].
+  fold (fold_steps (map (pb_loop_step g) views) (st, PBLoop (Ok []))).
+  rewrite fold_loop_steps. unfold pb_finish_step, parse_blobs_mem, parse_blobs_gen, mbind. cbn [fst snd].
+  destruct (parse_sparse_loop_mem g true views [] st) as [st1 [seqs| |]]; cbn [fst snd]; try reflexivity.
+  destruct (mmap finish_mseq (rev seqs) st1); reflexivity.
+Qed.
+
+(* N concurrent ParseBlobs calls over the same share views, ANY interleaving of
+   their per-share steps: the shared memory is unchanged, no two accesses of
+   different calls conflict, and every call that has returned has returned what
+   the pure parser returns on the bytes of the views. *)
+Theorem parse_blobs_concurrent : forall g h0 views n sched,
+  Forall (view_ok h0) views ->
+  let final := run_sched (length h0) sched (h0, repeat (pb_thread g views, pb_start) n) in
+  fst final = h0 /\
+  (forall i c, nth_error (snd final) i = Some ([], c) ->
+     tc_loc c = PBDone (parse_blobs (map (mread_bytes h0) views))) /\
+  (forall i j ri ci rj cj a b,
+     nth_error (snd final) i = Some (ri, ci) -> nth_error (snd final) j = Some (rj, cj) ->
+     In a (tc_log ci) -> In b (tc_log cj) -> ~ conflict (length h0) i a j b).
+Proof.
+  intros g h0 views n sched FV final.
+  set (ths := repeat (pb_thread g views, pb_start) n) in *.
+  assert (OK : Forall (thread_ok (pb_inv (length h0)) (length h0)) ths).
+  { apply Forall_forall. intros th Hth. apply repeat_spec in Hth. subst th. apply pb_thread_ok. }
+  destruct (read_only_interleave (pb_inv (length h0)) h0 ths sched OK) as (SH & LEN & _ & NC).
+  fold final in SH, LEN, NC. split; [exact SH|]. split; [|exact NC].
+  intros i c N.
+  assert (N0 : nth_error ths i = Some (pb_thread g views, pb_start)).
+  { assert (LT : i < length ths).
+    { rewrite <- LEN. apply nth_error_Some. rewrite N. discriminate. }
+    destruct (nth_error ths i) as [th|] eqn:E.
+    - apply nth_error_In in E. apply repeat_spec in E. subst th. reflexivity.
+    - apply nth_error_None in E. lia. }
+  pose proof (read_only_interleave_complete (pb_inv (length h0)) h0 ths sched i _ _ c OK N0 N) as RA.
+  unfold pb_start in RA.
+  rewrite (run_alone_direct (pb_inv (length h0)) h0 (pb_thread g views) [] [] (PBLoop (Ok []))
+             (pb_thread_disciplined _ g views)) in RA by constructor.
+  rewrite app_nil_r, fold_pb_thread in RA. cbv zeta in RA. cbn [fst snd] in RA.
+  inversion RA as [K]. cbn [tc_loc]. f_equal. apply parse_blobs_mem_refines. assumption.
+Qed.
+
+(* ================================================================== *)
+(* 5. Non-vacuity                                                      *)
+(* ================================================================== *)
+
+(* the repaired parser on the three-share witness: heap unchanged, the blob is returned *)
+Example parse_blobs_mem_witness :
+  let r := parse_blobs_mem grow_double d7_views (mk_st [d7_arena] []) in
+  st_heap (fst r) <> [d7_arena] (* it did allocate *) /\
+  firstn 1 (st_heap (fst r)) = [d7_arena] /\
+  snd r = Ok [d7_blob] /\
+  log_writes_below 1 (st_log (fst r)) = false /\
+  existsb (fun a => match a_kind a with AW => true | AR => false end) (st_log (fst r)) = true.
+Proof.
+  cbv zeta. split; [|split; [|split; [|split]]].
+  - intros K. apply (f_equal (@length bytes)) in K. vm_compute in K. discriminate K.
+  - apply (parse_blobs_mem_heap_unchanged grow_double [d7_arena] d7_views).
+  - vm_compute. reflexivity.
+  - vm_compute. reflexivity.
+  - vm_compute. reflexivity.
+Qed.
+
+(* the pure parser agrees on the witness (hypotheses of the refinement are satisfiable) *)
+Example parse_blobs_refines_witness :
+  Forall (view_ok [d7_arena]) d7_views /\ parse_blobs (map (mread_bytes [d7_arena]) d7_views) = Ok [d7_blob].
+Proof. split; [exact d7_views_ok|]. vm_compute. reflexivity. Qed.
+
+(* three concurrent ParseBlobs calls, steps interleaved round-robin and then unevenly:
+   all finish, shared block unchanged, each returns the blob *)
+Example parse_blobs_concurrent_witness :
+  let ths := repeat (pb_thread grow_double d7_views, pb_start) 3 in
+  let final := run_sched 1 [0;1;2;2;1;0;0;0;1;2;2;1] ([d7_arena], ths) in
+  fst final = [d7_arena] /\
+  map (fun th => (length (fst th), tc_loc (snd th))) (snd final) =
+    repeat (0, PBDone (Ok [d7_blob])) 3 /\
+  map (fun th => length (tc_priv (snd th))) (snd final) = [3; 3; 3].
+Proof. vm_compute. repeat split; reflexivity. Qed.
+
+(* a thread that is NOT disciplined (the pre-fix parser) is rejected by the hypothesis:
+   its single step changes the shared block *)
+Example legacy_step_not_disciplined :
+  ~ disciplined (fun _ : unit => True) 1
+      (fun s => (fst (parse_blobs_mem_legacy grow_double d7_views (fst s)), tt)).
+Proof.
+  intros D. destruct (D (mk_st [d7_arena] []) tt (le_n _) I) as [(E & _) _].
+  cbn [fst snd] in E.
+  assert (K : first_diff 0 (hblock [d7_arena] 0)
+               (hblock (st_heap (fst (parse_blobs_mem_legacy grow_double d7_views (mk_st [d7_arena] [])))) 0)
+              = Some 512) by (vm_compute; reflexivity).
+  rewrite (hblock_firstn 1 [d7_arena] _ 0 E) in K by auto.
+  rewrite first_diff_refl in K. discriminate K.
+Qed.
